@@ -466,6 +466,14 @@ func DefinesPath(fn *ssa.Function, ap string) PathKeep {
 func Feasible(p Path) bool {
 	seen := map[string]bool{}
 	for _, c := range p.Conds() {
+		// a decision carried in a local variable (`reason := ""; switch {case a: reason = "x"}; if reason != "" {…}`):
+		// the phi's edge on this path is a constant, so the test is decided
+		if holds, known := constPhiTest(c, p); known {
+			if !holds {
+				return false
+			}
+			continue
+		}
 		k := PathOf(c.V)
 		if strings.Contains(k, "call:") || strings.Contains(k, "<-") || strings.Contains(k, "?") {
 			continue
@@ -480,6 +488,42 @@ func Feasible(p Path) bool {
 		seen[k] = c.True
 	}
 	return true
+}
+
+// constPhiTest: c compares a phi with a constant and, on path p, the phi took a
+// constant edge: whether the branch taken agrees with the comparison.
+func constPhiTest(c Cond, p Path) (holds bool, known bool) {
+	bin, ok := c.V.(*ssa.BinOp)
+	if !ok || (bin.Op != token.EQL && bin.Op != token.NEQ) || c.Idx <= 0 || c.Idx >= len(p) {
+		return false, false
+	}
+	x, y := bin.X, bin.Y
+	if _, isK := x.(*ssa.Const); isK {
+		x, y = y, x
+	}
+	k, isK := y.(*ssa.Const)
+	ph, isPhi := x.(*ssa.Phi)
+	if !isK || !isPhi || k.Value == nil {
+		return false, false
+	}
+	// the edge taken: last occurrence of the phi's block at or before the test
+	for i := c.Idx; i >= 1; i-- {
+		if p[i] != ph.Block() {
+			continue
+		}
+		for j, pb := range ph.Block().Preds {
+			if pb == p[i-1] {
+				ek, isEK := ph.Edges[j].(*ssa.Const)
+				if !isEK || ek.Value == nil {
+					return false, false
+				}
+				eq := ek.Value.ExactString() == k.Value.ExactString()
+				return ((bin.Op == token.EQL) == eq) == c.True, true
+			}
+		}
+		return false, false
+	}
+	return false, false
 }
 
 // ReachEdge: like ReachSet for the CFG edge e (the branch condition of the
